@@ -103,7 +103,7 @@ class CtxWorld(World):
     ASSUMPTIONS = ["Daemon.annotations() is not overridden (its keys would legitimately appear on every reply)",
                    "Pyro's own annotation keys (STRM, BLBI) are not 'custom'",
                    "sending a raising method's annotations with its own error reply, or not at all, are both allowed"]
-    QUICK_RUNS = 2500
+    QUICK_RUNS = 8000
     CHUNK = 100
     SHRINK_LISTS = ["clients", "clients.0.sessions", "clients.1.sessions", "clients.2.sessions",
                     "clients.0.sessions.0", "clients.0.sessions.1", "clients.1.sessions.0", "clients.1.sessions.1",
